@@ -142,9 +142,13 @@ func sendRequestToTarget(req *http.Request, httpsDefault bool) (*http.Response, 
 	}
 	slog.Debug("Sent request to target", "url", req.URL, "status", resp.Status)
 
-	if resp.StatusCode < 100 || resp.StatusCode > 999 {
-		// Not an HTTP status code (net/http reads "099" or "000" without complaint). It cannot be
-		// relayed: the server side refuses to write it and the handler would panic.
+	if resp.StatusCode < 200 || resp.StatusCode > 999 {
+		// Not an HTTP status code (net/http reads "099" or "000" without complaint), or an
+		// informational one as the final answer: interim 1xx responses never get here, and "101
+		// Switching Protocols" answers an upgrade this proxy never asks for (Connection and Upgrade
+		// are hop-by-hop and not forwarded). Neither can be relayed: the server side refuses to write
+		// the former (the handler would panic) and allows no body after the latter, so the client was
+		// left without any answer.
 		resp.Body.Close()
 		slog.Error("Target answered with an invalid status code", "url", req.URL, "status", resp.Status)
 		return nil, fmt.Errorf("%w: invalid status code %d", ErrSendRequestFailed, resp.StatusCode)
